@@ -2,6 +2,7 @@ SPECIFICATION Spec
 CONSTANTS
   Fix <- FixAll
   Scenarios <- AllScenarios
+  LateClose = FALSE
 INVARIANT TypeOK
 INVARIANT Inv_Usable
 INVARIANT Inv_NoLeftover
